@@ -160,10 +160,10 @@ fault("c01-rootpath-other", "C01", "R01f", (BASE, '            rootpath = self.c
 fault("c01-suffix-dotdot", "C01", "R01f", (GMAP, 'and self.vfs.isfile(self.getselector() + "/gophermap")', 'and self.vfs.isfile(self.getselector() + "/../gophermap")'))
 fault("c01-searchrequest-path", "C01", "R01f", (HTML, "        with self.vfs.open(self.getselector(), \"rb\") as fp:", "        with self.vfs.open(self.getselector() + self.searchrequest, \"rb\") as fp:"))
 fault("c01-selectorargs-sidecar", "C01", "R01f", (EXEC, "        args = [self.getfspath()]\n", "        args = [self.vfs.getrootpath() + self.searchrequest]\n"))
-fault("c01-d15-unfixed", "C01", "R01f", (GMAP, "if probe.isrequestsecure() and self.vfs.exists(selector):", "if self.vfs.exists(selector):"))
+fault("c01-d15-unfixed", "C01", "R01f", (GMAP, "                            and probe.isrequestsecure()\n", ""))
 twin("c01-twin-d15-early-continue", "C01",
-     (GMAP, "                        if probe.isrequestsecure() and self.vfs.exists(selector):\n                            entry.populatefromvfs(self.vfs, selector)\n",
-      "                        if probe.isrequestsecure():\n                            if self.vfs.exists(selector):\n                                entry.populatefromvfs(self.vfs, selector)\n"))
+     (GMAP, "                        if (\n                            selector.startswith(\"/\")\n                            and probe.isrequestsecure()\n                            and self.vfs.exists(selector)\n                        ):\n                            entry.populatefromvfs(self.vfs, selector)\n",
+      "                        if selector.startswith(\"/\"):\n                            if probe.isrequestsecure():\n                                if self.vfs.exists(selector):\n                                    entry.populatefromvfs(self.vfs, selector)\n"))
 fault("c01-linkfile-open", "C01", "R01f", (UMN, "                    entry.setselector(pathname)\n                    entry.setneedsabspath(True)\n", "                    entry.setselector(pathname)\n                    entry.setneedsabspath(True)\n                    entry.populatefromvfs(self.vfs, pathname)\n"))
 fault("c01-decode-in-handler", "C01", "R01g", (VIRT, "        super().__init__(selector, searchrequest, protocol, config, statresult, vfs)\n", "        import urllib.parse\n        selector = urllib.parse.unquote(selector)\n        super().__init__(selector, searchrequest, protocol, config, statresult, vfs)\n"))
 fault("c01-decode-after-gate", "C01", "R01g", (SPAR, "            handler = self.gethandler()\n            self.log(handler)\n", "            handler = self.gethandler()\n            self.selector = urllib.parse.unquote(self.selector)\n            self.log(handler)\n"))
@@ -1087,3 +1087,67 @@ fault("c20-response-buffered-past-the-try", "C20", "R20g",
       (SERVER, "    server: BaseServer\n\n    def handle(self) -> None:\n", "    server: BaseServer\n    wbufsize = 8192\n\n    def handle(self) -> None:\n"))
 twin("c20-twin-response-explicitly-unbuffered", "C20",
      (SERVER, "    server: BaseServer\n\n    def handle(self) -> None:\n", "    server: BaseServer\n    wbufsize = 0\n\n    def handle(self) -> None:\n"))
+
+# ======================================================================= round k
+fault("c01-map-link-looked-up-without-slash", "C01", "R01f",
+      (GMAP, "                            selector.startswith(\"/\")\n                            and probe.isrequestsecure()", "                            probe.isrequestsecure()"))
+twin("c01-twin-map-link-slash-by-slice", "C01",
+     (GMAP, "                            selector.startswith(\"/\")\n", "                            selector[:1] == \"/\"\n"))
+fault("c01-root-rewritten-after-a-failed-chroot", "C01", "R01n",
+      (INIT, "        os.chroot(chroot_user)\n        os.chdir(\"/\")\n        logger.log(f\"Chrooted to {chroot_user}\")\n",
+       "        try:\n            os.chroot(chroot_user)\n            os.chdir(\"/\")\n            logger.log(f\"Chrooted to {chroot_user}\")\n        except OSError:\n            logger.log(\"chroot refused, continuing\")\n"))
+fault("c19-root-rewritten-after-a-failed-chroot", "C19", "R19d",
+      (INIT, "        os.chroot(chroot_user)\n        os.chdir(\"/\")\n        logger.log(f\"Chrooted to {chroot_user}\")\n",
+       "        try:\n            os.chroot(chroot_user)\n            os.chdir(\"/\")\n            logger.log(f\"Chrooted to {chroot_user}\")\n        except OSError:\n            logger.log(\"chroot refused, continuing\")\n"))
+twin("c01-twin-chroot-failure-reported-and-raised", "C01",
+     (INIT, "        os.chroot(chroot_user)\n        os.chdir(\"/\")\n        logger.log(f\"Chrooted to {chroot_user}\")\n",
+      "        try:\n            os.chroot(chroot_user)\n            os.chdir(\"/\")\n            logger.log(f\"Chrooted to {chroot_user}\")\n        except OSError:\n            logger.log(\"chroot refused\")\n            raise\n"))
+twin("c19-twin-chroot-failure-reported-and-raised", "C19",
+     (INIT, "        os.chroot(chroot_user)\n        os.chdir(\"/\")\n        logger.log(f\"Chrooted to {chroot_user}\")\n",
+      "        try:\n            os.chroot(chroot_user)\n            os.chdir(\"/\")\n            logger.log(f\"Chrooted to {chroot_user}\")\n        except OSError:\n            logger.log(\"chroot refused\")\n            raise\n"))
+SIGH = "pygopherd/sighandlers.py"
+MBOXH = "pygopherd/handlers/mbox.py"
+fault("c03-notfound-text-formatted-twice", "C03", "R03l",
+      (GEXC, "        retval = \"'%s' does not exist\" % self.selector\n        if self.comments:\n            retval += \" (%s)\" % self.comments\n",
+       "        retval = \"'%s' does not exist\" % self.selector\n        if self.comments:\n            retval = (retval + \" (%s)\") % self.comments\n"))
+fault("c12-notfound-text-formatted-twice", "C12", "R12i",
+      (GEXC, "        retval = \"'%s' does not exist\" % self.selector\n        if self.comments:\n            retval += \" (%s)\" % self.comments\n",
+       "        retval = \"'%s' does not exist\" % self.selector\n        if self.comments:\n            retval = (retval + \" (%s)\") % self.comments\n"))
+twin("c03-twin-notfound-text-one-format", "C03",
+     (GEXC, "        retval = \"'%s' does not exist\" % self.selector\n        if self.comments:\n            retval += \" (%s)\" % self.comments\n",
+      "        if self.comments:\n            retval = \"'%s' does not exist (%s)\" % (self.selector, self.comments)\n        else:\n            retval = \"'%s' does not exist\" % (self.selector,)\n"))
+fault("c03-selector-inside-the-format-string", "C03", "R03m",
+      (GEXC, "        retval = \"'%s' does not exist\" % self.selector\n", "        retval = (\"'\" + self.selector + \"' does not %s\") % \"exist\"\n"))
+fault("c03-selector-formatted-as-template", "C03", "R03m",
+      (GEXC, "        retval = \"'%s' does not exist\" % self.selector\n", "        retval = (\"'\" + self.selector + \"' does not {}\").format(\"exist\")\n"))
+fault("c11-failure-path-formats-with-the-selector", "C11", "R11g",
+      (DIR, "                # Truncated or corrupt cache file: regenerate the listing.\n                return False\n",
+       "                # Truncated or corrupt cache file: regenerate the listing.\n                print((\"bad cache below \" + self.selector + \": %s\") % self.cachename)\n                return False\n"))
+twin("c11-twin-failure-path-reports-the-selector", "C11",
+     (DIR, "                # Truncated or corrupt cache file: regenerate the listing.\n                return False\n",
+      "                # Truncated or corrupt cache file: regenerate the listing.\n                print(\"bad cache below %s: %s\" % (self.selector, self.cachename))\n                return False\n"))
+fault("c04-any-from-line-is-a-mailbox", "C04", "R04l",
+      (MBOXH, "            rb\"From \\s*[^\\s]+\\s+\\w\\w\\w\\s+\\w\\w\\w\\s+\\d?\\d\\s+\"\n", "            rb\"From \\s*[^\\s]+|From \\s*[^\\s]+\\s+\\w\\w\\w\\s+\\w\\w\\w\\s+\\d?\\d\\s+\"\n"))
+twin("c04-twin-from-line-pattern-respelled", "C04",
+     (MBOXH, "            rb\"From \\s*[^\\s]+\\s+\\w\\w\\w\\s+\\w\\w\\w\\s+\\d?\\d\\s+\"\n", "            rb\"From \\s*\\S+\\s+\\w{3}\\s+\\w{3}\\s+\\d?\\d\\s+\"\n"))
+fault("c05-request-line-split-once", "C05", "R05m",
+      (HTTP, "        self.requestparts = [arg.strip() for arg in self.request.split(\" \")]\n", "        if not hasattr(self, \"requestparts\"):\n            self.requestparts = [arg.strip() for arg in self.request.split(\" \")]\n"))
+fault("c07-names-walked-from-a-set", "C07", "R07q",
+      (DIR, "        for file in self.files:\n", "        for file in set(self.files):\n"))
+twin("c07-twin-names-walked-from-a-sorted-set", "C07",
+     (DIR, "        for file in self.files:\n", "        for file in sorted(set(self.files)):\n"))
+fault("c14-peeked-byte-kept-on-the-server", "C14", "R14f",
+      (SERVER, "            if sock.recv(1, socket.MSG_PEEK) == b\"\\x16\":\n", "            self.lastpeek = sock.recv(1, socket.MSG_PEEK)\n            if self.lastpeek == b\"\\x16\":\n"))
+twin("c14-twin-peeked-byte-in-a-local", "C14",
+     (SERVER, "            if sock.recv(1, socket.MSG_PEEK) == b\"\\x16\":\n", "            first = sock.recv(1, socket.MSG_PEEK)\n            if first == b\"\\x16\":\n"))
+fault("c16-lookups-remembered-per-archive", "C16", "R16m",
+      (ZIP, "        self.invalid_paths = set()\n", "        self.invalid_paths = _seen_missing.setdefault(self.zipfilename, set())\n"),
+      (ZIP, "class VFSZip(VFS_Real):\n", "_seen_missing = {}\n\n\nclass VFSZip(VFS_Real):\n"))
+fault("c17-step-on-a-sequence-escapes", "C17", "R17k",
+      (TALES, "\t\t\t\t\t\tval = temp[int(path)]\n\t\t\t\texcept:\n", "\t\t\t\t\t\tval = temp[int(path)]\n\t\t\t\texcept (KeyError, IndexError, TypeError, AttributeError):\n"))
+twin("c17-twin-step-handler-names-exception", "C17",
+     (TALES, "\t\t\t\t\t\tval = temp[int(path)]\n\t\t\t\texcept:\n", "\t\t\t\t\t\tval = temp[int(path)]\n\t\t\t\texcept Exception:\n"))
+fault("c20-sigpipe-default-disposition", "C20", "R20h",
+      (SIGH, "def setsigtermhandler():\n", "def setsigpipehandler():\n    signal.signal(signal.SIGPIPE, signal.SIG_DFL)\n\n\ndef setsigtermhandler():\n"))
+twin("c20-twin-sigpipe-explicitly-ignored", "C20",
+     (SIGH, "def setsigtermhandler():\n", "def setsigpipehandler():\n    signal.signal(signal.SIGPIPE, signal.SIG_IGN)\n\n\ndef setsigtermhandler():\n"))
